@@ -22,7 +22,7 @@ import (
 
 // MapRange lists the (printed) operand expressions of `range` statements over maps whose
 // iteration order the explorer must own.
-var MapRange = map[string]bool{}
+var MapRange = map[string]string{} // operand -> "choose" | "sorted"
 
 func exprString(e ast.Expr) string {
 	var b bytes.Buffer
@@ -238,16 +238,29 @@ func (r *rewriter) post(n ast.Node) ast.Node {
 		// Ranging over a channel cannot be recognised without type information; the packages under
 		// test do not do it. Ranging over a *map* named with -maprange is owned by the explorer:
 		// `for k = range m` becomes `for _, k = range vrt.MapKeys(m)` (explored choice of the first key).
-		if MapRange[exprString(x.X)] {
-			if x.Value != nil || x.Key == nil {
-				r.err = fmt.Errorf("%s: -maprange supports only the `for k := range m` form", r.file)
-				break
+		if mode := MapRange[exprString(x.X)]; mode != "" {
+			fn := "MapKeys"
+			if mode == "sorted" {
+				fn = "MapKeysSorted"
 			}
 			r.usesVrt = true
 			r.touched = true
-			x.Value = x.Key
-			x.Key = id("_")
-			x.X = call(sel("vrt", "MapKeys"), x.X)
+			m := x.X
+			isBlank := func(e ast.Expr) bool { i, ok := e.(*ast.Ident); return ok && i.Name == "_" }
+			switch {
+			case x.Key != nil && x.Value == nil: // for k := range m
+				x.Value, x.Key = x.Key, id("_")
+			case x.Key != nil && isBlank(x.Key): // for _, v := range m
+				k := id(r.fresh("k"))
+				bind := &ast.AssignStmt{Lhs: []ast.Expr{x.Value}, Tok: x.Tok, Rhs: []ast.Expr{&ast.IndexExpr{X: m, Index: k}}}
+				x.Body.List = append([]ast.Stmt{bind}, x.Body.List...)
+				x.Value, x.Tok = k, token.DEFINE
+			default: // for k, v := range m
+				bind := &ast.AssignStmt{Lhs: []ast.Expr{x.Value}, Tok: x.Tok, Rhs: []ast.Expr{&ast.IndexExpr{X: m, Index: x.Key}}}
+				x.Body.List = append([]ast.Stmt{bind}, x.Body.List...)
+				x.Value, x.Key = x.Key, id("_")
+			}
+			x.X = call(sel("vrt", fn), m)
 		}
 	}
 	return n
@@ -396,7 +409,9 @@ func File(path string) ([]byte, error) {
 	if err := format.Node(&buf, fset, f); err != nil {
 		return nil, err
 	}
-	return buf.Bytes(), nil
+	// The rewritten text uses generics helpers whose constraints need a newer language version than
+	// the repository's go.mod may declare; a file-level build constraint raises it for this file only.
+	return append([]byte("//go:build go1.21\n\n"), buf.Bytes()...), nil
 }
 
 func (r *rewriter) walkMark(d ast.Decl) ast.Node {
